@@ -522,6 +522,26 @@ def rule_taken_at_call_site(ctx):
     tk = ev.last_env.get(hq.local_name_of_arg(b["body"], "ProofOutline::from_specification", 1, "taken_predicates"), [None])[-1]
     rt = repr(tk)
     ok = len(calls) >= 1 and tk is not None and all(c[2][1] == tk for c in calls) and "rename_predicates" in rt and rt.count("Formula::predicates") >= 2 and "input_predicates" in rt
+    # the same set in comprehension form (a loop per theory, or one chain over both lists flat-mapped): the inputs, and the predicates of
+    # `.formula` of every element of the two whole formula lists, unconditionally
+    from .. import comp as _comp
+    _comp.use(fx)
+    scans, inputs_ok, rest = [], False, 0
+    try:
+        ctk = _comp.canon(tk) if tk is not None else None
+    except Exception:
+        ctk = None
+    if isinstance(ctk, tuple) and ctk[:1] == ("coll",):
+        for src_, alts_ in ctk[1]:
+            if len(src_) == 1 and src_[0][:2] == ("call", "UserGuide::input_predicates") and alts_ == ((frozenset(), ("at", src_[0])),):
+                inputs_ok = True
+            elif len(src_) == 2 and src_[1] == ("call", "Formula::predicates", (("fieldof", ("at", src_[0]), "formula"),)) and alts_ == ((frozenset(), ("at", src_[1])),) \
+                    and src_[0][:1] == ("fieldof",) and src_[0][2] == "formulas":
+                scans.append(src_[0])
+            else:
+                rest += 1
+    canon_ok = inputs_ok and rest == 0 and len(scans) == 2 and len(set(scans)) == 2 and sum("rename_predicates" in repr(x_) for x_ in scans) == 1
+    ok = (ok or canon_ok) and len(calls) >= 1 and tk is not None and all(c[2][1] == tk for c in calls)
     ctx.add("SEQ", "taken-at-call-site", ok, ctx.site(b),
             "ProofOutline::from_specification receives taken = input predicates + predicates of the left formulas + predicates of the renamed right formulas")
     # every formula of both theories is scanned: each `extend(formula.predicates())` sits in a loop over the whole formula list of one theory
@@ -533,7 +553,7 @@ def rule_taken_at_call_site(ctx):
                 if isinstance(y, tuple) and len(y) == 2 and y[0] == "each":
                     srcs.append(y[1])
     whole_lists = [s_ for s_ in srcs if isinstance(s_, tuple) and s_[:1] == ("fieldof",) and s_[2] == "formulas"]
-    ctx.add("SEQ", "taken-scans-both-theories", bool(srcs) and len(whole_lists) == len(srcs) and len(set(whole_lists)) >= 2, ctx.site(b),
+    ctx.add("SEQ", "taken-scans-both-theories", (bool(srcs) and len(whole_lists) == len(srcs) and len(set(whole_lists)) >= 2) or canon_ok, ctx.site(b),
             "the predicates of every formula of both theories are taken: %d loop(s) over a whole formula list, %d other" % (len(set(whole_lists)), len(srcs) - len(whole_lists)))
 
 
